@@ -8,6 +8,7 @@
 From Coq Require Import List NArith ZArith Bool Arith.
 From PV Require Import Lib.ListX Model.Pratt Model.SqlGrammar Model.SqlTree Model.PrqlExpr Model.StaticEval
                        Gen.GenSqlStrength Gen.GenStdSql.
+From PV Require Gen.GenDialectFeat.     (* has_concat_function of every dialect (dialect.rs), regenerated on every run *)
 Import ListNotations.
 
 (* ---- needs_parentheses (gen_expr.rs) ---- *)
@@ -85,10 +86,33 @@ Definition c_template (t : template) : option construct :=
   end.
 
 Local Open Scope N_scope.
-Definition n_concat : str := [115;116;100;46;99;111;110;99;97;116].   (* std.concat: process_concat, not modelled *)
+Definition n_concat : str := [115;116;100;46;99;111;110;99;97;116].   (* std.concat: process_concat (below), never translate_binary_operator *)
 Local Close Scope N_scope.
 Definition lookup_binop (name : str) : option sqlbin :=
   if leqb name n_concat then None else option_map snd (find (fun p => leqb (fst p) name) operator_from_name).
+
+(* ---- process_concat (gen_expr.rs): std.concat -- what an f-string lowers to, nested left to right -- is flattened
+   (collect_concat_args) and becomes CONCAT(a, b, ...) on dialects with a CONCAT function, `a || b || ...` elsewhere.
+   Every part goes through translate_expr, never through translate_operand: required strength 0 at every hole. *)
+Fixpoint concat_args (r : rexpr) : list rexpr :=
+  match r with
+  | ROp n args => if leqb n n_concat then flat_map concat_args args else [r]
+  | _ => [r]
+  end.
+Definition dialect_has_concat (dialect : str) : bool :=
+  match find (fun p => leqb (fst p) dialect) GenDialectFeat.feats with
+  | Some p => GenDialectFeat.has_concat_function (snd p)
+  | None => true
+  end.
+Fixpoint concat_chain (acc : sdexpr) (i n : nat) : sdexpr :=
+  match n with O => acc | S k => concat_chain (DBin SConcat 0 acc 0 (hole i 0 false A_Both)) (S i) k end.
+Definition s_concat_fn : str := [67;79;78;67;65;84]%N.
+Definition strength_of_concat : nat :=
+  match find (fun b => match sop_of_sqlbin b with Some SConcat => true | _ => false end) sqlbin_all with
+  | Some b => sqlbin_strength b | None => sqlbin_strength_default end.
+Definition c_concat (has_fn : bool) (n : nat) : construct :=
+  if has_fn then {| c_top := 0; c_sk := DCall (FName s_concat_fn) (case_holes n 0); c_declared := expr_strength_default |}
+  else {| c_top := 0; c_sk := concat_chain (hole 0 0 true A_Both) 1 (pred n); c_declared := strength_of_concat |}.
 
 (* which construct, applied to which RQ arguments (translate_expr's case analysis, in its order) *)
 Definition select (dialect : str) (r : rexpr) : option (construct * list rexpr) :=
@@ -103,6 +127,10 @@ Definition select (dialect : str) (r : rexpr) : option (construct * list rexpr) 
       | [] => Some (c_case 0 false, [])
       end
   | ROp name args =>
+      if leqb name n_concat then
+        let fl := concat_args r in
+        if 2 <=? length fl then Some (c_concat (dialect_has_concat dialect) (length fl), fl) else None
+      else
       let generic :=
         match lookup_binop name, args with
         | Some o, [a; b] => option_map (fun c => (c, [a; b])) (c_binary o)
